@@ -15,7 +15,7 @@ var errOnTracks = errors.New("simulated OnTracks failure")
 // the pending-request check of blackholed requests: a request that is never answered must not keep the client alive after Close
 func c12Origin(r *Run) *stubOrigin {
 	g := &originGen{containers: []string{"ts", "fmp4"}, modes: []string{"vod", "live", "event"}, minSegs: 3, maxSegs: 8,
-		renditions: true, byteRanges: true, segDurMs: []int{500, 1000, 2000}, multiFrag: false, noPDTChance: 3}
+		renditions: true, byteRanges: true, segDurMs: []int{500, 1000, 2000, 4000, 4000}, multiFrag: false, noPDTChance: 3}
 	o := genStubOrigin(r, g)
 	for _, st := range o.streams {
 		if st.mode != "vod" {
@@ -84,7 +84,13 @@ func checkTermination(r *Run, w *cliWorld, faultFired string, faultStatus int, c
 			r.Fail("error-identity", "transport", "the transport failed but Wait yielded %s", describeErr(w.waitErr))
 		}
 	case "ontracks":
-		if !closedBefore(w) && !errors.Is(w.waitErr, errOnTracks) {
+		// while the user's OnTracks executes (it takes simulated time) a stream downloader may legitimately fail first
+		legit := false
+		switch w.waitErr.Error() {
+		case "next segment not found or not ready yet", "playback is too late", "there aren't enough segments to fill the buffer":
+			legit = true
+		}
+		if !closedBefore(w) && !legit && !errors.Is(w.waitErr, errOnTracks) {
 			r.Fail("error-identity", "ontracks", "OnTracks returned an error but Wait yielded %s", describeErr(w.waitErr))
 		}
 	}
@@ -195,8 +201,28 @@ func scC12Close(r *Run) {
 	}
 	w := newCliWorld(r, o, o.primaryURL(), fate)
 	w.onTracksDelay = time.Duration(Pick(T, 0, 0, 30, 300, 2000)) * time.Millisecond
+	if faultKind != "stall" || faultPos < 0 {
+		w.net.tr.ignoreCancel = T.Chance(1, 3) // swarm: some transports deliver what is in flight even after cancellation
+	}
 	w.limit = 4 * time.Minute
 	closes := 0
+	// half of the scenarios sweep the Close position over scheduler events, the other half over a time grid
+	// (events are sparse while samples are being paced; a grid of 5..500 ms reaches the moments in between)
+	grid := time.Duration(Pick(T, 0, 0, 0, 5, 23, 23, 100, 500)) * time.Millisecond
+	if grid > 0 {
+		at := time.Duration(r.SweepPos) * grid
+		closeAt = 1 << 30
+		for i := 0; i < nClose; i++ {
+			w.net.schedule(at+time.Duration(i)*time.Millisecond, "custom", nil, func() {
+				if closes < nClose {
+					closes++
+					r.Tracef("close #%d at %v (time grid %v, wait seen: %v)", closes, r.Now(), grid, w.waitSeen)
+					r.Fault("close")
+					w.closeClient()
+				}
+			})
+		}
+	}
 	w.onEvent = func(ev int) {
 		if ev >= closeAt && closes < nClose {
 			closes++
@@ -220,7 +246,13 @@ func scC12Close(r *Run) {
 	}
 	r.Tracef("end: wait=%v err=%s requests=%d closes=%d", w.waitSeen, describeErr(w.waitErr), len(w.net.log), closes)
 	checkTermination(r, w, "", 0, true)
-	if !r.Failed() && closedBefore(w) && !isTerminated(w.waitErr) {
+	// (with a transport that still delivers what is in flight after cancellation, shutting the pool down takes
+	// simulated time: a fatal error taken before Close can then surface after it, so the identity of the value
+	// says nothing about the order)
+	// The value must be the termination error when Close came first and shutting down took no simulated time.
+	// When the shutdown takes time (a transport that still delivers what is in flight, a user callback that is
+	// executing), a fatal error taken before Close may surface after it and the value says nothing about the order.
+	if !r.Failed() && closedBefore(w) && !isTerminated(w.waitErr) && !w.net.tr.ignoreCancel && w.waitAt == w.closedAt {
 		// Close before any fatal error: the value must be the termination error
 		r.Fail("error-identity", "close", "Close was called at %v, before Wait yielded at %v, but the value is %s", w.closedAt, w.waitAt, describeErr(w.waitErr))
 	}
